@@ -2942,3 +2942,291 @@ def t_cpp_skipped_silent(facts, res, tier):
                     res.fail(key, facts.where(fn, x), "process() raises an error in the arm %s of the directive dispatch without knowing that the region is selected: a line of a skipped region stops the compilation" % pt)
     if n == 0:
         raise AnchorMissing("process(): the dispatch on the directive name was not found")
+
+
+@rule("T-ADDR-FOLD", floor=2,
+      text="`(t >> 8) + 2` is folded by generate_expr into the high byte of the address `t + 512` (an operand `Absolute(t, false, k * 256)` loaded in "
+           "high-byte mode).  That is arithmetic on an address: it holds for a name that stands for its address (a constant array or pointer, "
+           "`var_const`) and not for a pointer variable, whose value lives in memory - there `(p >> 8) + 1` must load `p+1` and add.  Every operand "
+           "built with an offset scaled by 256 lies under a test that the variable is `var_const`; the commuted spelling `1 + (p >> 8)` never takes "
+           "the fold")
+def t_addr_fold(facts, res, tier):
+    from scopes import scoped
+    n = 0
+    for fn in genmodel.gen_fns(facts):
+        for node, env, doms in scoped(fn):
+            if not (node.get("k") == "call" and expr_text(node["func"]).replace(" ", "") == "ExprType::Absolute" and len(node["args"]) == 3):
+                continue
+            off = expr_text(node["args"][2]).replace(" ", "")
+            if not re.search(r"wrapping_mul\(256\)|\*256\b|<<8", off):
+                continue
+            n += 1
+            key = "T-ADDR-FOLD:%s:%s" % (fn["name"], off[:40])
+            conds = [expr_text(d[1]).replace(" ", "") for d in doms if d[0] == "cond" and d[2]]
+            ok = any(re.search(r"(?<![!\w])\w*\.?var_const\b", c) and "!v.var_const" not in c and "var_const==false" not in c for c in conds)
+            res.inst(key, True, {"function": fn["name"], "offset": off[:50], "under_var_const": ok})
+            if not ok:
+                res.fail(key, facts.where(fn, node), "%s builds `%s` - a constant folded into the address of `%s` - without knowing that the name is an address constant (`var_const`): for a pointer variable the operand names unrelated memory" % (fn["name"], expr_text(node)[:70], expr_text(node["args"][0])[:20]))
+    if n == 0:
+        raise AnchorMissing("no operand with an offset scaled by 256 found")
+
+
+CMP6 = ["Eq", "Neq", "Lt", "Lte", "Gt", "Gte"]
+CMP_NEGATION = {"Eq": "Neq", "Neq": "Eq", "Gt": "Lte", "Gte": "Lt", "Lt": "Gte", "Lte": "Gt"}
+CMP_SWAP = {"Eq": "Eq", "Neq": "Neq", "Gt": "Lt", "Gte": "Lte", "Lt": "Gt", "Lte": "Gte"}
+
+
+@rule("T-CMP-MAPS", floor=3,
+      text="a table that sends comparison operators to comparison operators (`match op { Operation::Gt => Operation::Lte, .. }`, the result possibly "
+           "wrapped in Some) is, wherever it stands in the crate, one of the three transformations that have a meaning: the negation (the comparison "
+           "that holds exactly when the first does not), the exchange of the operands, or the identity - and it is total over the six comparisons.  "
+           "T-CMPXFORM decides what the tables of generate_condition_ex are used for; this rule judges every table, also one added in a new helper "
+           "(`!(a <= b)` rewritten to `a >= b`)")
+def t_cmp_maps(facts, res, tier):
+    variants = set(facts.enum_variants("Operation"))
+    n = 0
+    for fn in facts.fns:
+        if fn.get("test"):
+            continue
+        for m in walk(fn["body"]):
+            if m.get("k") != "match":
+                continue
+            table = {}
+            other = 0
+            for arm in m["arms"]:
+                pats = arm["pat"]["alts"] if arm["pat"].get("k") == "or" else [arm["pat"]]
+                b = arm["body"]
+                while isinstance(b, dict) and b.get("k") in ("paren", "ref"):
+                    b = b["e"]
+                if isinstance(b, dict) and b.get("k") == "call" and expr_text(b["func"]).replace(" ", "") in ("Some", "Ok") and len(b["args"]) == 1:
+                    b = b["args"][0]
+                if isinstance(b, dict) and b.get("k") == "block" and len(b.get("stmts", [])) == 1:
+                    b = b["stmts"][0]
+                tgt = None
+                if isinstance(b, dict) and b.get("k") == "path" and b["segs"][-1] in variants and (len(b["segs"]) == 1 or b["segs"][-2] == "Operation"):
+                    tgt = b["segs"][-1]
+                for p in pats:
+                    while p.get("k") == "ref":
+                        p = p["pat"]
+                    if p.get("k") == "path" and p["segs"][-1] in CMP6 and (len(p["segs"]) == 1 or p["segs"][-2] == "Operation"):
+                        if tgt in CMP6:
+                            table[p["segs"][-1]] = tgt
+                        else:
+                            other += 1
+            if len(table) < 3:
+                continue
+            n += 1
+            kind = "negation" if all(table.get(k) == v for k, v in CMP_NEGATION.items()) else "operand exchange" if all(table.get(k) == v for k, v in CMP_SWAP.items()) else \
+                   "identity" if all(table.get(k) == k for k in CMP6) else None
+            key = "T-CMP-MAPS:%s:%s" % (fn["name"], kind or "unrecognised")
+            res.inst(key, True, {"function": fn["name"], "table": table, "is": kind})
+            if kind is None:
+                near = min((("negation", CMP_NEGATION), ("operand exchange", CMP_SWAP)), key=lambda t: sum(1 for k in CMP6 if table.get(k) != t[1][k]))
+                diff = ["%s => %s (a %s sends it to %s)" % (k, table.get(k, "nothing"), near[0], near[1][k]) for k in CMP6 if table.get(k) != near[1][k]]
+                res.fail("T-CMP-MAPS:%s" % fn["name"], facts.where(fn, m), "%s holds a table of comparison operators that is neither the negation, nor the exchange of operands, nor the identity: %s" % (fn["name"], "; ".join(diff)))
+    if n == 0:
+        raise AnchorMissing("no table of comparison operators found")
+
+
+INTERIOR_WRITES = {"borrow_mut", "set", "replace", "take", "lock", "write", "get_or_init", "get_or_insert_with", "swap", "replace_with", "fetch_add", "store"}
+TABLE_WRITES = {"insert", "remove", "push", "pop", "clear", "retain", "truncate", "extend", "swap_remove", "last_mut", "get_mut", "iter_mut", "drain", "append", "entry", "sort", "dedup"}
+
+
+@rule("T-CPP-MEMO", floor=4,
+      text="what a line expands to is a function of the macro tables of the Context at that moment.  The methods that only read the Context (&self: "
+           "replace_all, get_macro, evaluate, ..) keep nothing from one call to the next: none writes a field through interior mutability "
+           "(RefCell / Cell / Mutex).  Were one to keep a memo, every method that changes the tables (define, define_ex, undefine) would have to "
+           "discard it - all of them: a memo cleared by define and define_ex but not by undefine serves, after `#undef N`, the expansion made "
+           "while N was defined to every later line with the same text")
+def t_cpp_memo(facts, res, tier):
+    ctx = [f for f in facts.fns if f["file"].endswith("/cpp.rs") and f.get("qual") == "Context" and not f.get("test")]
+    if not ctx:
+        raise AnchorMissing("cpp.rs: impl Context not found")
+
+    def self_field(e):
+        """name of the field of self at the root of a method-call chain, or None"""
+        while isinstance(e, dict) and e.get("k") in ("mcall", "paren", "ref", "try", "unary", "index"):
+            e = e.get("recv") if e.get("k") == "mcall" else e.get("base") if e.get("k") == "index" else e.get("e")
+        if isinstance(e, dict) and e.get("k") == "field" and e["base"].get("k") == "path" and e["base"]["segs"] == ["self"]:
+            return e["name"]
+        return None
+
+    readers = [f for f in ctx if f.get("params") and f["params"][0].get("name") == "self" and "mut" not in f["params"][0].get("ty", "")]
+    mutators = [f for f in ctx if f.get("params") and f["params"][0].get("name") == "self" and "mut" in f["params"][0].get("ty", "")]
+    memo = {}
+    for f in readers:
+        key = "T-CPP-MEMO:reader:%s" % f["name"]
+        kept = []
+        for x in walk(f["body"]):
+            if x.get("k") == "mcall" and x["method"] in INTERIOR_WRITES:
+                fld = self_field(x["recv"])
+                if fld:
+                    kept.append(fld)
+                    memo.setdefault(fld, []).append((f, x))
+        res.inst(key, True, {"method": f["name"], "fields_written_through_interior_mutability": sorted(set(kept))})
+    for fld, sites in sorted(memo.items()):
+        for m in mutators:
+            writes = set()
+            resets = False
+            for x in walk(m["body"]):
+                if x.get("k") == "mcall" and x["method"] in TABLE_WRITES:
+                    w = self_field(x["recv"])
+                    if w == fld and x["method"] in ("clear", "take", "drain"):
+                        resets = True
+                    elif w and w != fld:
+                        writes.add(w)
+                if x.get("k") in ("assign", "assignop"):
+                    w = self_field(x["l"]) or (x["l"].get("name") if x["l"].get("k") == "field" and expr_text(x["l"]["base"]) == "self" else None)
+                    if w == fld:
+                        resets = True
+                    elif w:
+                        writes.add(w)
+                if x.get("k") == "mcall" and x["method"] == "clear":
+                    inner = x["recv"]
+                    if isinstance(inner, dict) and inner.get("k") == "mcall" and inner["method"] in ("get_mut", "borrow_mut") and self_field(inner["recv"]) == fld:
+                        resets = True
+            if writes and not resets:
+                f0, x0 = sites[0]
+                res.fail("T-CPP-MEMO:%s:%s" % (fld, m["name"]), facts.where(m, m["body"]), "%s keeps `self.%s` between calls and Context::%s changes %s without discarding it: what was expanded before the change is served after it" % (f0["name"], fld, m["name"], ", ".join("`%s`" % w for w in sorted(writes))))
+    if not readers:
+        raise AnchorMissing("cpp.rs: Context has no &self method")
+
+
+@rule("T-SCAN-LOCAL", floor=1,
+      text="process() scans a physical line piece by piece (`while !remaining.is_empty()`), in or out of a block comment.  What it decides about a piece "
+           "- is this an #include, whose quotes are not a string - it decides from the piece (`s2`, `remaining`) and from the scanner's state, not "
+           "from a property of the whole raw line (`buf`) computed before the loop: the start of the raw line may lie inside a block comment that "
+           "ends on this line, and what follows the `*/` is ordinary code whose strings must be extracted")
+def t_scan_local(facts, res, tier):
+    fn = facts.fn("process", "")
+    par = _parents(fn["body"])
+    loops = [x for x in walk(fn["body"]) if x.get("k") == "while" and expr_text(x["cond"]).replace(" ", "") in ("!remaining.is_empty()", "(!remaining.is_empty())")]
+    if not loops:
+        raise AnchorMissing("process(): the scanning loop `while !remaining.is_empty()` not found")
+    for lp in loops:
+        # the block that holds the loop, and the locals bound before it from the raw line
+        p, slot, idx = par[id(lp)]
+        while p is not None and p.get("k") != "block":
+            lp_top = p
+            p, slot, idx = par[id(p)]
+        stmts = p.get("stmts", [])
+        pos = next(i for i, s in enumerate(stmts) if any(y is lp for y in walk(s)))
+        tainted = {}
+        for s in stmts[:pos]:
+            if s.get("k") == "let" and s.get("init") is not None:
+                names = scopes_pat_names(s.get("pat"))
+                src = [y["segs"][0] for y in walk(s["init"]) if y.get("k") == "path" and len(y["segs"]) == 1]
+                if ("buf" in src or any(t in tainted for t in src)) and names != ["remaining"]:
+                    for nm in names:
+                        tainted[nm] = expr_text(s["init"])[:50]
+        used = []
+        for x in walk(lp["body"]):
+            if x.get("k") in ("if", "while"):
+                c = x["cond"]
+            elif x.get("k") == "match":
+                c = x["e"]
+            else:
+                continue
+            for y in walk(c):
+                if y.get("k") == "path" and len(y["segs"]) == 1 and y["segs"][0] in tainted:
+                    used.append((x, y["segs"][0]))
+        key = "T-SCAN-LOCAL:process"
+        res.inst(key, True, {"locals_bound_from_the_raw_line_before_the_loop": sorted(tainted), "read_in_a_condition_of_the_loop": sorted({u[1] for u in used})})
+        for x, nm in used:
+            res.fail(key, facts.where(fn, x), "inside the scanning loop a decision reads `%s`, bound before the loop from the raw line (`%s`): it describes the physical line, comment included, not the piece being scanned" % (nm, tainted[nm]))
+
+
+@rule("T-STMT-WRAPPER-KEPT", floor=5,
+      text="compile_statement returns the statement together with what belongs to it as a whole: its position and the label written in front of it "
+           "(`L: { .. }`, `L: char x = 3;`).  Every caller keeps that StatementLoc whole - pushes it, boxes it, stores it in the node it builds.  A "
+           "caller that opens it (a match or struct pattern on the result, `.statement` taken out of it) and uses the statement alone drops the "
+           "label: `goto L` is still emitted as `JMP .L`, and `.L` never is")
+def t_stmt_wrapper_kept(facts, res, tier):
+    n = 0
+    for fn in facts.fns:
+        if not fn["file"].endswith("/compile.rs") or fn.get("test"):
+            continue
+        par = None
+        for c in walk(fn["body"]):
+            if not (_self_call(c, ("compile_statement",))):
+                continue
+            if par is None:
+                par = _parents(fn["body"])
+            n += 1
+            key = "T-STMT-WRAPPER-KEPT:%s" % fn["name"]
+            q = c
+            p, slot, idx = par.get(id(q), (None, None, None))
+            while p is not None and p.get("k") in ("try", "paren"):
+                q = p
+                p, slot, idx = par.get(id(q), (None, None, None))
+            how = "kept whole"
+            bad = None
+            if p is not None and p.get("k") == "match" and slot == "e":
+                opened = [a for a in p["arms"] if "StatementLoc{" in pat_text(a["pat"]).replace(" ", "")]
+                if opened:
+                    bad = "matched against `%s`" % pat_text(opened[0]["pat"])[:60]
+            elif p is not None and p.get("k") == "letcond":
+                bad = "opened by `if let %s`" % pat_text(p["pat"])[:60]
+            elif p is not None and p.get("k") == "field" and p["name"] == "statement":
+                bad = "`.statement` taken out of it"
+            elif p is not None and p.get("k") == "let":
+                pt = p.get("pat", {})
+                if pt.get("k") == "ident":
+                    nm = pt["name"]
+                    uses = [expr_text(y).replace(" ", "") for y in walk(fn["body"]) if y.get("k") == "field" and y["base"].get("k") == "path" and y["base"]["segs"] == [nm]]
+                    if any(u.endswith(".statement") for u in uses) and not any(u.endswith(".label") for u in uses):
+                        bad = "bound to `%s`, of which only `.statement` is used" % nm
+                    how = "bound to %s" % nm
+                else:
+                    bad = "destructured by `let %s`" % pat_text(pt)[:60]
+            res.inst(key, True, {"function": fn["name"], "where": facts.where(fn, c), "result": bad or how})
+            if bad:
+                res.fail(key, facts.where(fn, c), "%s takes the result of compile_statement apart (%s): the label written in front of that statement is dropped while gotos to it are still emitted" % (fn["name"], bad))
+    if n == 0:
+        raise AnchorMissing("compile.rs: no call of compile_statement")
+
+
+@rule("T-STR-SINGLE-PASS", floor=1,
+      text="the text of a literal is decoded once, from left to right: the loop of compile_quoted_string_ex that consumes `\\\\` + the next character "
+           "reads the characters of the function's own parameter.  A pass that rewrites the text first (a regex for `\\xHH`, a replace) and hands a "
+           "copy to the loop decodes twice: it cannot know that the backslash it sees is the second half of `\\\\\\\\`, and `\"C:\\\\\\\\x41\"` loses its "
+           "backslash")
+def t_str_single_pass(facts, res, tier):
+    from scopes import scoped
+    n = 0
+    for fn in facts.fns:
+        if not fn["file"].endswith("/compile.rs") or fn.get("test"):
+            continue
+        # a decoding loop: `while let Some(c) = <it>.next()` whose body matches a further `<it>.next()` after seeing a backslash
+        loops = [x for x in walk(fn["body"]) if x.get("k") == "while" and x["cond"].get("k") == "letcond" and expr_text(x["cond"]["e"]).replace(" ", "").endswith(".next()")
+                 and ("'\\\\'" in expr_text(x["body"]) or '"\\\\"' in expr_text(x["body"])) and any(y.get("k") == "match" and expr_text(y["e"]).replace(" ", "").endswith(".next()") for y in walk(x["body"]))]
+        if not loops:
+            continue
+        for lp in loops:
+            it = expr_text(lp["cond"]["e"]).replace(" ", "")[:-len(".next()")]
+            src = None
+            where = lp
+            for node, env, doms in scoped(fn):
+                if node is lp["cond"]["e"]:
+                    b = env.get(it)
+                    if b is not None and b.init is not None:
+                        e = b.init
+                        where = e
+                        while isinstance(e, dict) and e.get("k") == "mcall" and e["method"] in ("chars", "char_indices", "bytes", "peekable", "iter", "into_iter", "as_bytes"):
+                            e = e["recv"]
+                        if isinstance(e, dict) and e.get("k") == "path" and len(e["segs"]) == 1:
+                            # the binding visible where the iterator was made
+                            for n2, env2, d2 in scoped(fn):
+                                if n2 is b.init:
+                                    bb = env2.get(e["segs"][0])
+                                    src = (e["segs"][0], bb.src if bb is not None else "unknown", expr_text(bb.init)[:60] if bb is not None and bb.init is not None else None)
+                        else:
+                            src = (expr_text(e)[:40], "expression", None)
+            n += 1
+            key = "T-STR-SINGLE-PASS:%s" % fn["name"]
+            res.inst(key, True, {"function": fn["name"], "iterator": it, "over": list(src) if src else None})
+            if src is None or src[1] != "param":
+                res.fail(key, facts.where(fn, where), "%s decodes escapes from `%s`, which is %s and not the text it was given: the literal went through an earlier rewriting pass and is decoded twice" % (
+                    fn["name"], src[0] if src else it, ("bound to `%s`" % src[2]) if src and src[2] else "not the parameter"))
+    if n == 0:
+        raise AnchorMissing("compile.rs: the escape decoding loop was not found")
